@@ -8,18 +8,21 @@ func init() {
 		s.Pkgs = []string{"board", "heur", "attacks", "movegen"}
 		s.Native = []NativeRun{{"heur", "VpV_SEE"}}
 		s.Bounds = []string{
-			"ARBITRARY valid position, concrete legal (side, from, to, promotion) case (seeded sample in quick, eight times as many in thorough, all 3760 in tier `exhaustive`), thresholds -3000..3000 symbolic",
-			"exchanges of at most 2 (quick) / 3 (thorough) captures after the initial move (specification bound, assumed; longer exchanges did not close within 60 s per query); the implementation's exchange loop is unrolled bound+2 times with an unwinding assumption; the native comparison on the corpus uses 8 captures",
+			"ARBITRARY valid position, concrete legal (side, from, to, promotion) case (seeded sample in quick, four times the sampling rates in thorough, all 3760 in tier `exhaustive`), thresholds -3000..3000 symbolic",
+			"exchanges of at most 2 captures after the initial move in both tiers (specification bound, assumed; with 3 captures several monotonicity obligations stay unknown after 300 s, 4 captures do not close at all); the implementation's exchange loop is unrolled bound+2 times with an unwinding assumption; the native comparison on the corpus uses 8 captures",
 		}
 		s.Assumptions = append(s.Assumptions,
 			"equally valued least attackers are chosen as the implementation does (knight before bishop, lowest square first); the property allows any choice, so a different valid tie-break would be reported and has to be triaged",
 			"the exchange specification (harness/heur/c18.go) is compared natively with SEE on every legal move of the repo's test positions on each run")
 		div := 4
-		maxcap := int64(2)
+		maxcap := int64(2) // 3 recaptures: the monotonicity obligation of several pawn-move cases is unknown after 300 s
+		// thorough: four times the quick sampling rates (with 3 recaptures the 8x sample ran past 100 minutes, 4x past 55,
+		// and at 2x seven monotonicity obligations stayed unknown after 300 s)
 		if tier == "thorough" {
-			maxcap = 3
+			s.Instances = stepInstancesDiv("VpH_C18", "quick", seed, 0, 4, div, map[string]int64{"maxcap": maxcap})
+		} else {
+			s.Instances = stepInstancesDiv("VpH_C18", tier, seed, 0, 1, div, map[string]int64{"maxcap": maxcap})
 		}
-		s.Instances = stepInstancesDiv("VpH_C18", tier, seed, 0, 1, div, map[string]int64{"maxcap": maxcap})
 		for i := range s.Instances {
 			s.Instances[i].Pkg = "heur"
 			s.Instances[i].Opt.LoopBound = int(maxcap) + 2
@@ -29,11 +32,6 @@ func init() {
 		// counterexample is replayed natively and reported, no answer is not a claim
 		var hunt []run.Instance
 		cases := [][2]int64{{3, 35}, {6, 21}, {28, 35}, {0, 56}, {2, 38}, {4, 12}} // Qd1xd5, Ng1xf3, e4xd5, Ra1xa8, Bc1xg5, Ke1xe2 geometry
-		if tier == "thorough" {
-			for _, in := range stepInstancesDiv("VpH_C18", "quick", seed+1, 0, 1, div, map[string]int64{"maxcap": 4}) {
-				hunt = append(hunt, in)
-			}
-		}
 		for _, cs := range cases {
 			hunt = append(hunt,
 				run.Instance{Func: "VpH_C18", Params: map[string]int64{"stm": 0, "from": cs[0], "to": cs[1], "promo": 0, "hist": 0, "maxcap": 4}},
@@ -47,7 +45,7 @@ func init() {
 			hunt[i].Opt.NoVacuity = true
 		}
 		s.Instances = append(s.Instances, hunt...)
-		s.Bounds = append(s.Bounds, "counterexample search only (not claimed): the same obligation with exchanges of up to 4 captures on 12 fixed capture geometries (quick) plus a seeded sample of the case split (thorough), 90 s per query; a counterexample is replayed on the real SEE before it is reported, no answer within the budget is reported as such")
+		s.Bounds = append(s.Bounds, "counterexample search only (not claimed): the same obligation with exchanges of up to 4 captures on 12 fixed capture geometries, 90 s per query; a counterexample is replayed on the real SEE before it is reported, no answer within the budget is reported as such")
 		return s
 	}
 }
